@@ -5,7 +5,7 @@ BAD = ('raise', 'fail', 'none', 'notpair', 'badstatus', 'badupdate', 'triple')
 ALL = ('ok',) + BAD
 
 
-def cfg(n, edges, outcomes, workers, init=None, cyclic=False, calls=1):
+def cfg(n, edges, outcomes, workers, init=None, cyclic=False, calls=1, second=None, nest=None):
     out = {'n': n, 'edges': [list(e) for e in edges], 'outcomes': list(outcomes), 'workers': workers}
     if init:
         out['init'] = [list(i) for i in init]
@@ -13,6 +13,10 @@ def cfg(n, edges, outcomes, workers, init=None, cyclic=False, calls=1):
         out['cyclic'] = True
     if calls > 1:
         out['calls'] = calls
+    if second is not None:
+        out['second'] = {'edges': [list(e) for e in second]}       # second schedule() on the same backend: other graph, fresh Env
+    if nest is not None:
+        out['nest'] = {'members': list(nest[0]), 'first': bool(nest[1])}   # tasks inside a DepGraph used as a node of the hard graph
     return out
 
 
